@@ -123,6 +123,10 @@ func (ctx *parseContext) resolveImport(node Node, name string, expansionDepth in
 // after expansion of macros in it.
 const maxMacroArgs = 10000
 
+// maxMacroArgLen is the maximum length of an argument after expansion of
+// macros inside it.
+const maxMacroArgLen = 65536
+
 func (ctx *parseContext) expandMacros(node *Node) error {
 	if strings.HasPrefix(node.Name, "$(") && strings.HasSuffix(node.Name, ")") {
 		return ctx.Err("can't use macro argument as directive name")
@@ -188,6 +192,12 @@ func (ctx *parseContext) expandSingleValueMacro(arg string) (string, error) {
 		}
 
 		arg = strings.Replace(arg, "$("+macroName+")", value, -1)
+
+		// A macro defined as a string with several references of another
+		// macro multiplies the length with each definition.
+		if len(arg) > maxMacroArgLen {
+			return "", ctx.Err("argument is too long after macro expansion")
+		}
 	}
 
 	return arg, nil
